@@ -445,63 +445,66 @@ func isInterfaceMethodOf(f *types.Func, pkg, iface string) bool {
 // the returned error with the sentinel (== or errors.Is) and on equality does
 // not return it (skips / continues).
 func sentinelHandled(inf *types.Info, fd *ast.FuncDecl, sentinel types.Object) (bool, token.Pos, string) {
-	found := false
 	pos := fd.Pos()
 	why := "no comparison of the callback result with the sentinel"
+	par := core.Parents(fd)
+	isSentinelFact := func(f core.Fact) bool {
+		switch x := core.Unparen(f.Expr).(type) {
+		case *ast.BinaryExpr:
+			if (x.Op == token.EQL) == f.Val && (x.Op == token.EQL || x.Op == token.NEQ) && (core.ObjOf(inf, x.X) == sentinel || core.ObjOf(inf, x.Y) == sentinel) {
+				return true
+			}
+		case *ast.CallExpr:
+			if cf := core.Callee(inf, x); core.IsFunc(cf, "errors", "Is") && f.Val && len(x.Args) == 2 && core.ObjOf(inf, x.Args[1]) == sentinel {
+				return true
+			}
+		}
+		return false
+	}
+	isSkipCall := func(e ast.Expr) bool {
+		call, ok := core.Unparen(e).(*ast.CallExpr)
+		if !ok {
+			return false
+		}
+		cf := core.Callee(inf, call)
+		return cf != nil && cf.Name() == "Skip"
+	}
+	// a skip action — `return r.Skip()`, `err = r.Skip()`, `continue` — on the branch where the callback's error is
+	// known to be the sentinel, whatever form the test takes (if, else-if, tagged switch, errors.Is)
+	found, compared := false, false
 	ast.Inspect(fd.Body, func(n ast.Node) bool {
-		ifs, ok := n.(*ast.IfStmt)
+		st, ok := n.(ast.Stmt)
 		if !ok {
 			return true
 		}
-		matches := false
-		for _, f := range core.Decompose(ifs.Cond, true, nil) {
-			switch x := core.Unparen(f.Expr).(type) {
-			case *ast.BinaryExpr:
-				if x.Op == token.EQL && f.Val && (core.ObjOf(inf, x.X) == sentinel || core.ObjOf(inf, x.Y) == sentinel) {
-					matches = true
-				}
-			case *ast.CallExpr:
-				if cf := core.Callee(inf, x); core.IsFunc(cf, "errors", "Is") && f.Val && len(x.Args) == 2 && core.ObjOf(inf, x.Args[1]) == sentinel {
-					matches = true
-				}
-			}
-		}
-		if !matches {
+		guarded := core.GuardedByFactAcrossClosures(inf, par, st, isSentinelFact, nil)
+		if !guarded {
 			return true
 		}
-		pos = ifs.Pos()
-		// the branch must skip: `return X.Skip()`, `continue`, or assign nil/Skip()
-		okBranch := false
-		for _, s := range ifs.Body.List {
-			switch st := s.(type) {
-			case *ast.ReturnStmt:
-				if len(st.Results) == 1 {
-					if call, ok := core.Unparen(st.Results[0]).(*ast.CallExpr); ok {
-						if cf := core.Callee(inf, call); cf != nil && cf.Name() == "Skip" {
-							okBranch = true
-						}
-					}
-				}
-			case *ast.BranchStmt:
-				if st.Tok == token.CONTINUE {
-					okBranch = true
-				}
-			case *ast.AssignStmt:
-				if len(st.Rhs) == 1 {
-					if call, ok := core.Unparen(st.Rhs[0]).(*ast.CallExpr); ok {
-						if cf := core.Callee(inf, call); cf != nil && cf.Name() == "Skip" {
-							okBranch = true
-						}
-					}
-				}
+		compared = true
+		pos = st.Pos()
+		switch x := st.(type) {
+		case *ast.ReturnStmt:
+			if len(x.Results) == 1 && isSkipCall(x.Results[0]) {
+				found = true
 			}
-		}
-		if okBranch {
-			found = true
-		} else {
-			why = "the sentinel branch does not skip the value"
+		case *ast.BranchStmt:
+			if x.Tok == token.CONTINUE {
+				found = true
+			}
+		case *ast.AssignStmt:
+			if len(x.Rhs) == 1 && isSkipCall(x.Rhs[0]) {
+				found = true
+			}
+		case *ast.ExprStmt:
+			if isSkipCall(x.X) {
+				found = true
+			}
 		}
 		return true
 	})
+	if compared && !found {
+		why = "the sentinel branch does not skip the value"
+	}
 	return found, pos, why
 }
